@@ -87,6 +87,14 @@ def run_optable(prop):
             for o in sobls:
                 o.props = set(o.props) | {"C02"}
                 battery_of[o.role] = stateflowlemmas.battery
+            import ctorlemmas
+            cobls, cfns = ctorlemmas.obligations(S)
+            cobls = [o for o in cobls if "C02" in o.props]
+            for o in cobls:
+                battery_of[o.role] = lambda: [({"source": ".r = !5\n", "event": {}}, {"accepted_never_fails": True}),
+                                              ({"source": ".r = !.a\n", "event": {"a": 5}}, {"accepted_never_fails": True}),
+                                              ({"source": "x = if .f == true { 5 } else { true }\n.r = !x\n", "event": {"f": True}}, {"accepted_never_fails": True})]
+            tobls, tfns = tobls + cobls, sorted(set(tfns) | set(cfns))
             import falliblelemmas
             fobls, ffns = falliblelemmas.obligations(S)
             for o in fobls:
